@@ -85,6 +85,11 @@ def replay(pid, rp):
         run_harness(["attrs", cp, op])
         print("RawAttribute::new(type %d, %d bytes) through the 19 typed decoders:" % (rp["case"]["type"], rp["case"]["len"]))
         print("implementation:", json.dumps(read_ndjson(op)[0])[:3000])
+    elif kind == "builder_ops":
+        print("builder from %s, then:" % rp["record"]["start"])
+        for o in rp["record"]["ops"]:
+            print("  %s(%s) -> %s %s%s" % (o["op"], o["type"], "ok" if o["ok"] else "refused", o["err"], " [serialisation changed]" if o["changed"] else ""))
+        print("re-run: ./check %s  (sequence %d of `stunh genops` with seed %s)" % (pid, rp["record"]["id"], rp.get("seed")))
     elif kind == "builder_path":
         print("operation sequence on a fresh request builder (method 1):", " ".join(rp["path"]))
         print("re-run: ./check %s  (the builder walk is exhaustive and deterministic; this path is part of it)" % pid)
@@ -1048,6 +1053,47 @@ def attr_cases(tier, rng):
         for _ in range(4):
             add(ty, [rng.randrange(256) for _ in range(n)], src="random blob")
         add(ty, [255] * n, src="all ones")
+    # (h) text that carries structure some other layer gives a meaning to: the RFC 8489 nonce cookie with well-formed, short and
+    #     malformed security-feature bits, quoted strings, line breaks and other control characters, text that looks like a header
+    cookie = list(b"obMatJos2")
+    nonceish = [cookie[:k] for k in (1, 8, 9)] + [cookie + list(t) for t in (b"A", b"AA", b"AAA", b"AAAA", b"AAAAx", b"AA==", b"====", b"!!!!", b"\xc3\xa9\xc3\xa9",
+                b"A\xc3\xa9A", b"AAA\xc3\xa9", b"gAAA" + b"n" * 20, b"////rest", b"-_-_", b"AAA ", b" AAA")]
+    ctl = [list(t) for t in (b"\n", b"a\n", b"a\nb", b"\r\n", b"a\r\nb\r\n", b"\t", b"a\tb", b"line one\nline two", b"\x0b\x0c", b"\x1b[0m", b"a\x00b",
+           b'"', b'""', b'"a"', b'"a', b'a"', b"'a'", b"<a>", b"a\\", b"\\\"", b"%00", b"\xe2\x80\xa8", b"\xc2\x85")]
+    for ty in TEXT_TYPES:
+        for v in nonceish + ctl:
+            add(ty, v, src="structured text")
+    for v in nonceish[::2] + ctl:
+        add(9, [0, 0, 4, 20] + v, src="error reason, structured text")
+    # (i) text whose last character is cut or complete exactly at the byte limits (and the ERROR-CODE reason likewise)
+    for ty, lim in ((6, 513), (20, 763), (21, 763), (32802, 763), (32771, 255), (9, 763)):
+        pre = [0, 0, 4, 0] if ty == 9 else []
+        for n in (lim - 1, lim, lim + 1, lim + 4, 40):
+            for tail in ([0xc3], [0xe2, 0x82], [0xf0, 0x9f, 0x98], [0xc3, 0xa9], [0xe2, 0x82, 0xac], [0x80], [0xff]):
+                if n > len(tail):
+                    add(ty, pre + [0x61] * (n - len(tail)) + tail, src="text of %d bytes ending in %s" % (n, tail))
+                    add(ty, pre + tail + [0x61] * (n - len(tail)), src="text of %d bytes starting with %s" % (n, tail))
+    # (j) types next to the built-in ones (the other comprehension half, +-1, a byte-swapped code) with a value the built-in
+    #     decoder of the neighbour would take: every decoder must refuse them as the wrong implementation
+    sample = {6: [0x61] * 5, 8: [7] * 20, 9: [0, 0, 4, 20, 0x6f, 0x6b], 10: [0, 6, 0, 8], 20: [0x61] * 4, 21: [0x61] * 4, 28: [7] * 32, 29: [0, 1, 0, 0],
+              30: [7] * 32, 32: [0, 1, 0x12, 0x34, 1, 2, 3, 4], 36: [0, 0, 0, 9], 37: [], 32770: [0, 1, 0, 0, 0, 2, 0, 0], 32771: [0x61] * 6,
+              32802: [0x61] * 6, 32803: [0, 1, 0x12, 0x34, 1, 2, 3, 4], 32808: [1, 2, 3, 4], 32809: [1] * 8, 32810: [1] * 8}
+    for ty in BUILTIN:
+        for near in (ty ^ 0x8000, ty + 1, ty - 1, ((ty & 0xff) << 8) | (ty >> 8), ty ^ 0x0100, ty ^ 0x0001):
+            if near not in BUILTIN and 0 <= near <= 0xffff:
+                add(near, sample[ty], src="type next to the built-in type %d" % ty)
+        if ty in (32, 32803):
+            add(ty ^ 0x8000, [0, 2, 0x12, 0x34] + [9] * 16, src="type next to the built-in type %d (IPv6 value)" % ty)
+    # (k) values that are themselves (almost) STUN messages - a relayed payload, an encapsulated check: header with the cookie, inner
+    #     length field smaller than, equal to and larger than what follows, with and without an inner attribute
+    hdr = lambda ilen: [0, 1, ilen >> 8, ilen & 255, 0x21, 0x12, 0xa4, 0x42] + list(range(12))
+    inner = [0x80, 0x22, 0, 4, 0x61, 0x62, 0x63, 0x64]
+    for ty in (0x0013, 0x7f00, 0x8000, 0x0012, 32, 6, 20, 32802):
+        for ilen in (0, 4, 8, 12, 100, 0x7fff, 0xfffc, 0xffff, 3):
+            for body in ([], inner, inner[:5], inner + [0x80, 0x28, 0, 4, 1, 2, 3, 4]):
+                add(ty, hdr(ilen) + body, src="value that looks like a STUN message (inner length %d, %d bytes follow)" % (ilen, len(body)))
+        add(ty, hdr(8)[:19], src="value that looks like a cut STUN header")
+        add(ty, [0, 0] + hdr(8) + inner, src="value that looks like a framed STUN message")
     # (g) raw attributes of other types (no built-in decoder): serialisation paths and wrong-implementation refusals
     for n in (lens if tier != "quick" else lens[::3]):
         add(rng.choice([0x7f00, 0xff00, 0x0001, 0x8000]), [rng.randrange(256) for _ in range(n)], src="raw attribute")
@@ -1363,8 +1409,94 @@ def builder_check(pid, rep, tier, seed, wd):
     return mc, lres, nodes, states, cases
 
 
+def builder_ops(pid, rep, tier, seed, wd):
+    """random operation sequences on builders of every origin (Message::builder, builder_success/_error, bad_request,
+    unknown_attributes, check_attribute_types) over all 19 built-in types: the adapter records results, the rules are
+    StunBuilderOps.tla's (TLC emits, per operation, whether it is carried out and the attribute list after it)"""
+    op = os.path.join(wd, "ops.ndjson")
+    run_harness(["genops", str(500 if tier == "quick" else 8000), str(seed), op])
+    recs = read_ndjson(op)
+    r = tlc_judge("StunBuilderOps.tla", "StunBuilderOps.cfg", {"OPS": op}, "builder operation judge")
+    exps = {}
+    for ln in r["out"].splitlines():
+        if ln.startswith('"EXPECT '):
+            e = json.loads(json.loads(ln)[7:])
+            exps[e["i"]] = e
+    if len(exps) != len(recs):
+        raise ToolError("builder operation judge saw %d of %d records" % (len(exps), len(recs)))
+    nops = nref = 0
+    finals = []
+    for k, rec in enumerate(recs):
+        e = exps[k + 1]
+        rp = {"kind": "builder_ops", "record": {kk: rec[kk] for kk in ("id", "start", "ops")}, "seed": seed}
+        what = None
+        if not e["initial_ok"]:
+            what = (["C11", "C03"], "%s: the specification's parser rejects what the fresh builder serialises" % rec["start"])
+        else:
+            types = e["initial_types"]
+            for j, (o, x) in enumerate(zip(rec["ops"], e["steps"])):
+                nops += 1
+                nref += 0 if x["allowed"] else 1
+                path = "%s, then %s" % (rec["start"], " ".join("%s(%s)" % (q["op"], q["type"]) for q in rec["ops"][:j + 1]))
+                if o["err"] == "panic":
+                    what = (["C11"], "%s: panic" % path)
+                elif o["ok"] != x["allowed"]:
+                    what = (["C11"], "%s: %s, the rules say it is %s (attributes before: %s)" % (
+                        path, "carried out" if o["ok"] else "refused (%s)" % o["err"], "carried out" if x["allowed"] else "refused", types))
+                elif not o["ok"] and o["changed"]:
+                    what = (["C11"], "%s: a refused operation changed what the builder serialises" % path)
+                elif o["op"] in ("into_owned", "clone") and o["changed"]:
+                    what = (["C12", "C11"], "%s: the builder serialises differently afterwards" % path)
+                else:
+                    want = [t in x["types"] for t in rec["probe"]]
+                    if o["has"] != want:
+                        bad = [t for t, a, b in zip(rec["probe"], o["has"], want) if a != b]
+                        what = (["C11"], "%s: has_attribute() disagrees with the attribute list %s for types %s" % (path, x["types"], bad))
+                types = x["types"]
+                if what:
+                    break
+            if not what:
+                if not rec["write_into_same"] or rec["byte_len"] != len(rec["bytes"]):
+                    what = (["C12", "C03"], "%s + %d operations: build(), byte_len() and write_into() disagree" % (rec["start"], len(rec["ops"])))
+                else:
+                    finals.append({"bytes": rec["bytes"], "creds": rec["creds"], "types": types, "src": "builder (%s) after %s" % (
+                        rec["start"], " ".join("%s(%s)" % (q["op"], q["type"]) for q in rec["ops"])), "rp": rp})
+        if what:
+            if pid in what[0]:
+                rep.violation("builder operations: " + what[1], rp)
+            else:
+                for p_ in what[0]:
+                    rep.note_foreign(p_)
+    # what the builders serialise in the end: accepted by the parser specification, exposes the builder's attributes, integrity
+    # and fingerprint valid (C11's last sentence, C03)
+    triples = run_pipeline([{k: v for k, v in c.items() if k != "rp"} for c in finals], wd, "ops", trace=False)
+    for c, (case, obs, exp, hang) in zip(finals, triples):
+        must, asis = compare(case, obs, exp, hang)
+        extra = []
+        if not exp["parse"]["ok"]:
+            extra.append((["C03", "C11"], "the specification's parser rejects what the builder serialised: %s" % json.dumps(exp["parse"])))
+        elif obs and obs["parse"].get("ok"):
+            got_types = [x["type"] for x in obs["acc"]["exposed"]] if isinstance(obs["acc"].get("exposed"), list) else None
+            if got_types != c["types"]:
+                extra.append((["C03", "C11"], "parsed back: exposed types %s, the builder holds %s" % (got_types, c["types"])))
+            integ = obs["acc"].get("integrity", [{}])[0]
+            if (8 in c["types"] or 28 in c["types"]) and not integ.get("ok"):
+                extra.append((["C11", "C03", "C04"], "integrity added by the builder does not validate: %s" % json.dumps(integ)))
+        for pids, w in must + extra:
+            if pid in pids or (pid in ("C03", "C11") and ("C02" in pids or "C10" in pids or "C09" in pids)):
+                rep.violation("%s: %s" % (c["src"], w), c["rp"])
+            else:
+                for p_ in pids:
+                    rep.note_foreign(p_)
+    os.remove(op)
+    if nref < 50 or nops - nref < 50:
+        raise ToolError("vacuity: random builder operations %d, refused %d" % (nops, nref))
+    return {"sequences": len(recs), "operations": nops, "refused_by_the_rules": nref, "final_messages_parsed": len(finals)}
+
+
 def c11(rep, tier, seed, wd):
     mc, lres, nodes, states, cases = builder_check("C11", rep, tier, seed, wd)
+    rep.add_cov(random_operation_sequences=builder_ops("C11", rep, tier, seed, wd))
     rep.add_cov(states=mc["distinct"], transitions=mc["generated"], traces_validated_against_impl=nodes,
                 builder_states_serialised_and_parsed=len(states), lts_edges=lres["generated"] - 1,
                 samples=[{"ops": ["add_attribute(A)", "add_integrity(MI)", "add_raw_attribute(R)", "add_integrity(MI256)", "add_fingerprint(FP)", "add_fingerprint(FP)"]},
@@ -1392,6 +1524,7 @@ def c12(rep, tier, seed, wd):
 
 def c03(rep, tier, seed, wd):
     mc, lres, nodes, states, cases = builder_check("C03", rep, tier, seed, wd)
+    rep.add_cov(random_operation_sequences=builder_ops("C03", rep, tier, seed, wd))
     n = 1200 if tier == "quick" else 15000
     gm = gen_messages(n, seed + 7, wd, maxattrs=7, nbig=8 if tier == "quick" else 60)
     gcs = [{"bytes": g["bytes"], "creds": g["creds"][:1], "src": "generated message %d" % g["id"], "gen": g["gen"]} for g in gm if not g["gen"]["by_ext"]]
